@@ -20,7 +20,7 @@ for _sh in [(0, 0, 0), (0, 0, 0, 0), (0, 0, 0, 0, 0), (0, 0, 0, 0, 0, 0), (0, 2,
 SHAPE_LEN = dict(("[" + ",".join("[" + ",".join(["Note"] * c) + "]" if c else "Note" for c in sh) + "]", len(sh))
                  for sh in SHAPES)
 SHAPES = list(SHAPE_LEN)
-_VALID = "all([is_name(open_string(t).name) for t in self.tuning])"
+_VALID = "all([all_valid_names(t) for t in self.tuning])"
 _D = "(pitch(note) - pitch(open_string(self.tuning[i])))"
 
 CONTRACTS[M + "find_frets"] = dict(
